@@ -138,3 +138,79 @@ func multisigCase(r *sim.Rng, n *sim.FNode, acc *msAccount, cw *sim.CaseWriter) 
 		st.TxOutcome[fmt.Sprintf("auth:%s:executed=%v", how, executed)]++
 	}
 }
+
+func msKeyT0(members []int) crypto.MultiPublicKeyI {
+	var points []kyber.Point
+	for _, i := range members {
+		p, err := crypto.BytesToBLS12381Point(sim.BLSKey(i).Pub)
+		if err != nil {
+			panic(err)
+		}
+		points = append(points, p)
+	}
+	mk, err := crypto.NewMultiBLSFromPoints(points, nil)
+	if err != nil {
+		panic(err)
+	}
+	return mk
+}
+
+func newMsAccountT0(members []int) *msAccount {
+	return &msAccount{members: members, threshold: 0, addr: msKeyT0(members).Address().Bytes()}
+}
+
+// multisigZeroCase: a key whose threshold field is 0 states no policy at all; a transfer out of the account at its address
+// "signed" by ONE of the three members (a genuine signature of that member) is not authorized by the account's owners
+func multisigZeroCase(r *sim.Rng, n *sim.FNode, acc *msAccount, cw *sim.CaseWriter) {
+	n.Enter()
+	msg := &fsm.MessageSend{FromAddress: acc.addr, ToAddress: sim.BLSKey(7).Addr, Amount: 100 + uint64(r.Intn(900))}
+	a, e := lib.NewAny(msg)
+	if e != nil {
+		panic(e)
+	}
+	tx := &lib.Transaction{MessageType: fsm.MessageSendName, Msg: a, CreatedHeight: n.FSM.Height(), Time: uint64(1_700_000_000_000_000 + r.Intn(1_000_000_000)), Fee: 10000,
+		NetworkId: uint64(n.Config.NetworkID), ChainId: n.Config.ChainId}
+	sb, e := tx.GetSignBytes()
+	if e != nil {
+		panic(e)
+	}
+	mk := msKeyT0(acc.members)
+	s := r.Intn(len(acc.members))
+	if err := mk.AddSigner(sim.BLSKey(acc.members[s]).Priv.Sign(sb), s); err != nil {
+		panic(err)
+	}
+	agg, err := mk.AggregateSignatures()
+	if err != nil {
+		return
+	}
+	tx.Signature = &lib.Signature{PublicKey: mk.Bytes(), Signature: agg}
+	variant, e := lib.Marshal(tx)
+	if e != nil {
+		panic(e)
+	}
+	curFSM = n.FSM
+	pre, e := sim.ScanState(n.FSM)
+	if e != nil {
+		panic(e)
+	}
+	res := new(lib.ApplyBlockResults)
+	if aerr := n.FSM.ApplyTransactions(context.Background(), [][]byte{variant}, res, false); aerr != nil {
+		n.FSM.Reset()
+	}
+	executed := len(res.Results) == 1
+	post, e := sim.ScanState(n.FSM)
+	if e != nil {
+		panic(e)
+	}
+	lit, kind, ok := msgLit(msg, acc.addr)
+	if !ok {
+		st.Skipped[kind]++
+		return
+	}
+	cw.Add(fmt.Sprintf("mkAuth %s 0%%N %s %s %s %s", pre.Lit(), sim.CoqN(tx.Fee), lit, sim.CoqBool(executed), post.Lit()),
+		map[string]any{"kind": kind, "variant": "multisig-threshold-zero-key-one-member", "signers": 1, "threshold": 0, "executed": executed})
+	st.Cases++
+	st.Distinct++
+	st.TxCases["auth:multisig-threshold-zero-key-one-member"]++
+	st.TxOutcome[fmt.Sprintf("auth:multisig-threshold-zero-key-one-member:executed=%v", executed)]++
+}
